@@ -676,13 +676,23 @@ def run_invariant_loop(interp, st, env, n, bind_at, spec, label="loop"):
         if not isinstance(o, FnArr):
             raise Unsupported(f"invariant loop: state variable {v} is not an index-function array/set")
         objs[v] = o
-    S_init = {v: o.f for v, o in objs.items()}
+    def view(v, fn):
+        """the contract's view of a state array: an array of another element type than the contract declares is seen through Python truthiness
+        (a number counts as True iff it is non-zero), e.g. a set re-implemented as an integer array"""
+        act, dec = objs[v].sort, spec.state[v]
+        if act == dec:
+            return fn
+        if dec == "Bool":
+            return lambda i, fn=fn: fn(i) != 0
+        raise Unsupported(f"invariant loop: state variable {v} has element type {act}, the contract expects {dec}")
+    S_init = {v: view(v, o.f) for v, o in objs.items()}
     G_init = spec.ghost_init()
     for nm, f in spec.inv(z3.IntVal(0), S_init, G_init):
         cx.oblige(f"inv.init.{label}.{nm}", f, kind="inv")
     u = next(cx.counter)
     k = z3.Int(f"k!{u}")
-    S = {v: FnArr.fresh_fn(f"{v}@k!{u}", s) for v, s in spec.state.items()}
+    S_raw = {v: FnArr.fresh_fn(f"{v}@k!{u}", objs[v].sort) for v in spec.state}
+    S = {v: view(v, S_raw[v]) for v in spec.state}
     G = {g: FnArr.fresh_fn(f"{g}@k!{u}", s) for g, s in spec.ghosts.items()}
     n_pc = len(cx.pc)
     nt = to_z3(n)
@@ -691,7 +701,7 @@ def run_invariant_loop(interp, st, env, n, bind_at, spec, label="loop"):
         cx.pc.append((f, st.lineno, "domain"))
     cx._solver = None
     for v, o in objs.items():
-        o.f = S[v]
+        o.f = S_raw[v]
     bind_at(env, k)
     cx.inv_k = k
     try:
@@ -703,19 +713,20 @@ def run_invariant_loop(interp, st, env, n, bind_at, spec, label="loop"):
     for v in spec.state:
         if env.get(v) is not objs[v]:
             raise Unsupported(f"invariant loop: state variable {v} was rebound inside the loop")
-    S1 = {v: o.f for v, o in objs.items()}
+    S1 = {v: view(v, o.f) for v, o in objs.items()}
     G1 = spec.ghost_step(k, S, S1, G)
     for nm, f in spec.inv(k + 1, S1, G1):
         for j, part in enumerate(_split_conj(f)):
             cx.oblige(f"inv.preserve.{label}.{nm}" + (f".{j}" if j else ""), part, kind="inv")
     del cx.pc[n_pc:]
     cx._solver = None
-    S2 = {v: FnArr.fresh_fn(f"{v}@exit!{u}", s) for v, s in spec.state.items()}
+    S2_raw = {v: FnArr.fresh_fn(f"{v}@exit!{u}", objs[v].sort) for v in spec.state}
+    S2 = {v: view(v, S2_raw[v]) for v in spec.state}
     G2 = {g: FnArr.fresh_fn(f"{g}@exit!{u}", s) for g, s in spec.ghosts.items()}
     for nm, f in spec.inv(nt, S2, G2):
         cx.assume(f)
     for v, o in objs.items():
-        o.f = S2[v]
+        o.f = S2_raw[v]
     cx.__dict__.setdefault("loop_exit", {})[label] = {"S": S2, "G": G2}
     import ast
     for node in ast.walk(ast.Module(body=st.body, type_ignores=[])):
